@@ -301,6 +301,22 @@ func newDeploy(ctx *core.RunCtx, params rlwe.Parameters) *c16Deploy {
 	return d
 }
 
+// maybeCoeffDomain returns ct or, one time in three, the same ciphertext outside the NTT domain (the
+// key-switching protocols accept both: they branch on the ciphertext's flag, not on the parameters').
+func (d *c16Deploy) maybeCoeffDomain(ct *rlwe.Ciphertext) *rlwe.Ciphertext {
+	if !ct.IsNTT || !d.ctx.Ch.Chance("coefficient-domain-input", 1, 3) {
+		return ct
+	}
+	c := ct.CopyNew()
+	r := d.params.RingQ().AtLevel(c.Level())
+	for i := range c.Value {
+		r.INTT(c.Value[i], c.Value[i])
+	}
+	c.IsNTT = false
+	d.ctx.Count("probe.coefficient-domain-input", 1)
+	return c
+}
+
 // ksOps are the share operations of the key-switch share type.
 func (d *c16Deploy) ksOps(proto *multiparty.KeySwitchProtocol, level int) *shareOps {
 	ringQ := d.params.RingQ()
@@ -720,11 +736,11 @@ func (c16) Run(ctx *core.RunCtx) {
 		okk := true
 		switch ch.Weighted("protocol", []int{2, 2, 2, 3, 3, 3}) {
 		case 0:
-			okk = d.runKeySwitch(ct, false)
+			okk = d.runKeySwitch(d.maybeCoeffDomain(ct), false)
 		case 1:
-			okk = d.runKeySwitch(ct, true)
+			okk = d.runKeySwitch(d.maybeCoeffDomain(ct), true)
 		case 2:
-			okk = d.runPublicKeySwitch(ct)
+			okk = d.runPublicKeySwitch(d.maybeCoeffDomain(ct))
 		case 3:
 			okk = sc.runE2S(d, ct, m, inNoise)
 		case 4:
